@@ -405,6 +405,25 @@ theorem mem_entries (r : Router) (e : Entry) :
     e ∈ r.entries ↔ (∃ pe ∈ r.inner, pe.2 = e) ∨ (∃ pe ∈ r.registries, pe.2 = e) ∨ (∃ pe ∈ r.structs, pe.2 = e) := by
   simp [Router.entries]
 
+theorem get_mem_entries (F : Facts) (r : Router) (path : Str) (f : Found) (h : r.get F path = some f) :
+    f.entry ∈ r.entries := by
+  unfold Router.get at h
+  obtain ⟨c, _, hc⟩ := List.exists_of_findSome?_eq_some h
+  rw [mem_entries]
+  cases c with
+  | exact =>
+    simp only [Router.lookupIn, lookupExact, Option.map_eq_some_iff] at hc
+    obtain ⟨e, ⟨pe, hpe, rfl⟩, rfl⟩ := hc
+    exact .inl ⟨pe, List.mem_of_find?_eq_some hpe, rfl⟩
+  | registries =>
+    simp only [Router.lookupIn, lookupMount, Option.map_eq_some_iff] at hc
+    obtain ⟨pe, hpe, rfl⟩ := hc
+    exact .inr (.inl ⟨pe, List.mem_of_find?_eq_some hpe, rfl⟩)
+  | structs =>
+    simp only [Router.lookupIn, lookupMount, Option.map_eq_some_iff] at hc
+    obtain ⟨pe, hpe, rfl⟩ := hc
+    exact .inr (.inr ⟨pe, List.mem_of_find?_eq_some hpe, rfl⟩)
+
 /-- the middleware list is exactly the registered middleware, in registration order -/
 def mwsOf : List Op → List Nat
   | [] => []
